@@ -90,6 +90,11 @@ Definition run (fn : str) (args : list str) : str :=
     match args with
     | v :: env => match fsubst_ (env_of env) 0 v with Some r => s2l "OK:" ++ r | None => s2l "ERR" end
     | _ => s2l "?" end
+  else if str_eqb fn (s2l "commas") then
+    (* flags: no_single_comma_function, is_multiline, is_function_arguments, last comma has trivia *)
+    match args with
+    | [fl; na; nc] => N_dec (N.of_nat (comma_rule (flag fl 0) (nat_of_str na) (nat_of_str nc) (flag fl 1) (flag fl 2) (flag fl 3)))
+    | _ => s2l "?" end
   else if str_eqb fn (s2l "has_empty") then
     match args with
     | [code] => match parse code with Ok b => bool_str (has_empty (prog [] b)) | _ => s2l "-" end
